@@ -30,6 +30,15 @@ def run(tier, v):
         raise vlib.Infra("Transfer (faults) violates %s on the design level\n%s" % (r["violated"], r["out"][-3000:]))
     cov["states"], cov["transitions"] = r["distinct"], r["states"]
     cov["model"] = "Transfer_fault%d.cfg: every single%s message fault (del/dup/dmg/trunc) at every position, protocols 1,2,4, both directions" % (1 if quick else 2, "" if quick else " and double")
+    # guard necessity (non-vacuity of the design check): with the receiver's digest compare switched off the
+    # same model must violate NoSilentCorruption; the other local checks are reported as redundant or necessary
+    table = {}
+    for wk in (["md5_r"] if quick else ["md5_r", "md5_s", "ack_len", "final"]):
+        g = vlib.tlc("TransferMC", "Transfer_weak_%s.cfg" % wk, timeout=1800, heap="16g")
+        table[wk] = g["violated"] or "not necessary for a single fault"
+    cov["guard_necessity"] = table
+    if table["md5_r"] != "NoSilentCorruption":
+        raise vlib.Infra("non-vacuity: without the receiver's digest compare the model should violate NoSilentCorruption, got %s" % table["md5_r"])
     h = vlib.build_harness(["e2e", "c02"])
     out = os.path.join(vlib.scratch(), "c02")
     params = {"shards": 96, "per_message": 3, "thorough": False} if quick else \
@@ -77,6 +86,15 @@ def run(tier, v):
 def replay(path, v):
     rec = json.load(open(path))
     case = rec["replay"].get("case")
+    # guard necessity (non-vacuity of the design check): with the receiver's digest compare switched off the
+    # same model must violate NoSilentCorruption; the other local checks are reported as redundant or necessary
+    table = {}
+    for wk in (["md5_r"] if quick else ["md5_r", "md5_s", "ack_len", "final"]):
+        g = vlib.tlc("TransferMC", "Transfer_weak_%s.cfg" % wk, timeout=1800, heap="16g")
+        table[wk] = g["violated"] or "not necessary for a single fault"
+    cov["guard_necessity"] = table
+    if table["md5_r"] != "NoSilentCorruption":
+        raise vlib.Infra("non-vacuity: without the receiver's digest compare the model should violate NoSilentCorruption, got %s" % table["md5_r"])
     h = vlib.build_harness(["e2e", "c02"])
     out = E.replay_cases(h, [case])
     files, details = E.gather(out, 1)
